@@ -191,7 +191,7 @@ def unit_sweep(ctx, db, r):
                     if why or not same(sv, Scalar(float(vv), u)) is None:
                         ctx.violation("repr-does-not-evaluate-back-to-an-equal-Scalar:%s-value" % nm, dict(case, repr=repr(sv), why=why), replay=case)
                 except Exception as e:
-                    ctx.violation("repr-raised-or-does-not-evaluate:%s:%s-value" % (type(e).__name__, nm), dict(case, repr=repr(sv)[:120], error=str(e)[:160]), replay=case)
+                    ctx.violation("repr-raised-or-does-not-evaluate:%s:%s-value" % (type(e).__name__, nm), dict(case, error=str(e)[:160]), replay=case)
             ctx.ev()
             s = Scalar(v, u)
             try:
